@@ -183,11 +183,17 @@ class Type1Tag(Tag):
                 if tlv_t == 0x00:
                     pass
                 elif tlv_t == 0x01:
-                    lock_bytes = get_lock_byte_range(tlv_v)
-                    skip_bytes.update(range(*lock_bytes.indices(0x800)))
+                    if tlv_l == 3:
+                        lock_bytes = get_lock_byte_range(tlv_v)
+                        skip_bytes.update(range(*lock_bytes.indices(0x800)))
+                    else:
+                        log.debug("lock tlv has wrong length")
                 elif tlv_t == 0x02:
-                    rsvd_bytes = get_rsvd_byte_range(tlv_v)
-                    skip_bytes.update(range(*rsvd_bytes.indices(0x800)))
+                    if tlv_l == 3:
+                        rsvd_bytes = get_rsvd_byte_range(tlv_v)
+                        skip_bytes.update(range(*rsvd_bytes.indices(0x800)))
+                    else:
+                        log.debug("memory tlv has wrong length")
                 elif tlv_t == 0x03:
                     ndef = tlv_v
                     break
